@@ -118,6 +118,7 @@ func suiteLoops(c *Ctx) {
 	stressLoops(c)
 	shutdownScenarios(c)
 	twoTriggerScenario(c)
+	commitPanicScenario(c)
 }
 
 // stressLoops: many concurrent API callers against one running MainLoop with the REAL timer-based
